@@ -94,12 +94,22 @@ def delegation(ctx, meths, rule='C14.D1'):
             ctx.ob(rule, '__getitem__ dispatches slice / number / id key in that order', True, '%s:%d' % (F, fn.lineno))
             sl = [norm(x) for x in branches[0][1]]
             res = None
+            ctor = None
             for x in branches[0][1]:
                 if isinstance(x, ast.Assign) and isinstance(x.value, ast.Call) and norm(x.value.func) == 'Grid':
                     res = x
+                    ctor = x.value
+                elif isinstance(x, ast.Assign) and isinstance(x.value, ast.Call) and isinstance(x.value.func, ast.Attribute) \
+                        and norm(x.value.func.value) == 'self' and x.value.func.attr in meths and not x.value.args:
+                    # helper that builds the derived grid: follow it
+                    helper = meths[x.value.func.attr]
+                    rets = [r.value for r in walk_no_nested(helper) if isinstance(r, ast.Return) and r.value is not None]
+                    if len(rets) == 1 and isinstance(rets[0], ast.Call) and norm(rets[0].func) == 'Grid':
+                        res = x
+                        ctor = rets[0]
             ok_ctor = False
             if res is not None:
-                kw = {kk.arg: norm(kk.value) for kk in res.value.keywords}
+                kw = {kk.arg: norm(kk.value) for kk in ctor.keywords}
                 ok_ctor = kw.get('version') in ('self.version', 'self._version') \
                     and kw.get('metadata') == 'self.metadata' and kw.get('columns') == 'self.column'
                 rn = norm(res.targets[0])
@@ -108,8 +118,9 @@ def delegation(ctx, meths, rule='C14.D1'):
                 ctx.ob(rule, 'slice yields Grid(version, metadata, columns of self) holding self._row[%s]' % k, True,
                        '%s:%d' % (F, fn.lineno))
             elif res is not None and not ok_ctor:
-                ctx.violation(rule, '%s::Grid.__getitem__' % F, norm(res),
-                              'grid[0:1] does not carry the version / metadata / columns of grid',
+                ctx.violation(rule, '%s::Grid.__getitem__' % F, norm(ctor),
+                              'grid[0:1] does not carry the version / metadata / columns of grid (e.g. a grid created without '
+                              'explicit version that a list cell upgraded to 3.0: its slice reports %s)' % kw.get('version', '2.0'),
                               'the slice result is not built from self.version, self.metadata, self.column', file=F,
                               line=res.lineno, engine='E9')
             else:
@@ -310,6 +321,11 @@ def index_pairing(ctx, meths, rule='C15.D1'):
             continue
         n_writers += 1
         last_i, last_st, kind, owner = row_writes[-1]
+        # a freshly constructed grid has no index yet (Grid.__init__ sets _index = None)
+        if owner != s and _fresh_grid_var(fn, owner, meths) and _init_index_none(meths):
+            ctx.ob(rule, 'Grid.%s hands rows to the freshly built grid `%s`, whose index starts as None' % (name, owner),
+                   True, '%s:%d' % (F, fn.lineno))
+            continue
         after = events[last_i + 1:]
         ok = False
         why = ''
@@ -366,6 +382,27 @@ def index_pairing(ctx, meths, rule='C15.D1'):
                       file=F, line=last_st.lineno, engine='E6')
     ctx.count('methods that write the row list', n_writers)
     ctx.floor('methods that write the row list', n_writers, 4)
+
+
+def _builds_grid(call, meths):
+    if isinstance(call, ast.Call) and norm(call.func) == 'Grid':
+        return True
+    if isinstance(call, ast.Call) and isinstance(call.func, ast.Attribute) and norm(call.func.value) == 'self' \
+            and call.func.attr in meths:
+        rets = [r.value for r in walk_no_nested(meths[call.func.attr]) if isinstance(r, ast.Return) and r.value is not None]
+        return len(rets) == 1 and isinstance(rets[0], ast.Call) and norm(rets[0].func) == 'Grid'
+    return False
+
+
+def _fresh_grid_var(fn, var, meths):
+    defs = [n.value for n in walk_no_nested(fn) if isinstance(n, ast.Assign) and len(n.targets) == 1
+            and isinstance(n.targets[0], ast.Name) and n.targets[0].id == var]
+    return bool(defs) and all(_builds_grid(d, meths) for d in defs)
+
+
+def _init_index_none(meths):
+    init = meths.get('__init__')
+    return init is not None and any(norm(n) == 'self._index = None' for n in walk_no_nested(init) if isinstance(n, ast.Assign))
 
 
 def _following(st):
@@ -509,4 +546,4 @@ def who_may_write(ctx, rule='C15.D4'):
                               'only Grid methods may touch _row/_index', file='hszinc/%s.py' % name, line=node.lineno,
                               engine='E7')
     ctx.ob(rule, 'all %d uses of _row/_index are inside class Grid' % n, True)
-    ctx.floor('uses of _row/_index', n, 20)
+    ctx.floor('uses of _row/_index', n, 12)
